@@ -926,7 +926,11 @@ where
                 if e.recv_inputs > 128 + 2 * w + 24 {
                     out.hit("C18", "recv-inputs", &scen, &format!("peer {id} endpoint {a}: {} received inputs remembered (max_prediction {w})", e.recv_inputs));
                 }
-                if e.pending_checksums > 33 {
+                // the trimming threshold follows the frame of the arriving report: every report that arrives out of
+                // order between two in-order ones can add one entry above the cap (C18_pending_checksums_unbounded_refuted
+                // is the adversarial limit of that); the networks of these families reorder single packets, so a
+                // handful above 32 is what the unchanged code may hold, and unbounded growth is what is looked for
+                if e.pending_checksums > 40 {
                     out.hit("C18", "pending-checksums", &scen, &format!("peer {id} endpoint {a}: {} pending checksums", e.pending_checksums));
                 }
                 if e.send_queue > 0 {
